@@ -15,6 +15,7 @@
                  on such a value is outside the modelled range (err).
      T.stk       the thread's private stack, one byte per element
      mem         shared memory, byte addressed (function address -> 0..255)
+     ro          addresses no store may touch (any store there is a violation, even of the same value)
      b           FIFO of pending stores <<addr, bytes>>   (TSO = TRUE only)
    Memory is byte-granular so that an access of the wrong width clobbers or
    misses the neighbouring bytes exactly as the hardware would.
@@ -76,8 +77,11 @@ Poke(f, j, w, x) ==
                  ![j + 4] = ByteOf(x, 4), ![j + 5] = ByteOf(x, 5), ![j + 6] = ByteOf(x, 6), ![j + 7] = ByteOf(x, 7)]
 
 (* store w bytes; `buffered`: goes to the store buffer when the address is shared *)
+RoErr == "store to an object that must not be written"
 WrMem(M, a, w, x, buffered) ==
   IF x.bad THEN Fail(M, "range: stored value not representable")
+  ELSE IF \E q \in M.ro : q >= a /\ q < a + w THEN Fail(M, RoErr)       \* Case.ro: e.g. the `expected` object of a
+                                                                        \* compare-exchange that can only succeed
   ELSE IF Shared(M, a) /\ Shared(M, a + w - 1) THEN
        IF buffered THEN [M EXCEPT !.b = Append(@, <<a, Bytes(x, w)>>)]
        ELSE [M EXCEPT !.mem = Poke(@, a, w, x)]
